@@ -169,7 +169,7 @@ def semsrcOp (j : Json) : R Json := do
   | .error _ => pure (Json.mkObj [("rows", Json.null)])
   | .ok body1 =>
     let prog : SProg := ⟨args, ret, body1⟩
-    let rows : List Json := (List.range (2 ^ argBits.length)).map fun k =>
+    let rows : List Json := (QV.Drive.C01.rowsOf j argBits.length).map fun k =>
       match execProg prog (assignment argBits k) with
       | some v => Json.str (bitsToString v.bits)
       | none => Json.null
